@@ -110,7 +110,7 @@ example : ∃ t s', getTemplate ⟨1, true, none, true⟩
       (final ⟨1, true, none, true⟩ [.writeFile 0 0 1, .getTemplate 0, .tick 1, .writeFile 0 0 3, .tick 1, .writeFile 0 1 4,
         .getTemplate 1, .putTemplate 1 0]) 1 = (.ok t, s') ∧ t.file = some (0, 0) ∧ t.id = 2 ∧
       (t.content = 3 ∨ ((true : Bool) = true ∧ t.stamp = 1)) :=
-  fresh_any_history ⟨1, true, none, true⟩ rfl _ 1 ⟨⟨0, 0, some (0, 0), 1, 0⟩, 2⟩ (0, 0) ⟨3, 1, false⟩
+  fresh_any_history ⟨1, true, none, true⟩ rfl _ 1 ⟨⟨0, 0, some (0, 0), 1, 0⟩, 1⟩ (0, 0) ⟨3, 1, false⟩
     (by decide) rfl (by decide) rfl (by decide)
 
 /-- Regression (repaired by b4d0d5f): template 0 (compiled at 0 from file (0,0)) is put under URI 1, whose module
@@ -398,17 +398,10 @@ example : ∃ t s3, getTemplate ⟨1, true, none, true⟩
       (run ⟨1, true, none, true⟩
         (getTemplate ⟨1, true, none, true⟩
           (final ⟨1, true, none, true⟩ [.writeFile 0 0 1, .getTemplate 0, .tick 1, .breakFile 0 0]) 0).2
-        [.tick 0, .writeFile 0 0 2]).2 0 = (.ok t, s3) ∧ t.content = 2 ∧ t.file = some (0, 0) := by
-  obtain ⟨f, file, hf, hb, _, _, hkey⟩ := failed_compile_leaves_lookup_usable ⟨1, true, none, true⟩
+        [.tick 1, .writeFile 0 0 2]).2 0 = (.ok t, s3) ∧ t.content = 2 ∧ t.file = some (0, 0) := by
+  obtain ⟨f, file, _, _, _, _, hkey⟩ := failed_compile_leaves_lookup_usable ⟨1, true, none, true⟩
     [.writeFile 0 0 1, .getTemplate 0, .tick 1, .breakFile 0 0] 0 _ rfl
-  have hf0 : f = (0, 0) := by
-    by_cases hh : f = (0, 0)
-    · exact hh
-    · exfalso
-      have : (final ⟨1, true, none, true⟩ [.writeFile 0 0 1, .getTemplate 0, .tick 1, .breakFile 0 0]).fs f = none := by
-        simp [final, run, step, init, setFs, getTemplate, hh]
-      rw [this] at hf; cases hf
-  exact hkey 0 0 2 (by decide) (by intro j hj; exact absurd hj (Nat.not_lt_zero _)) (Or.inl hf0.symm)
+  exact hkey 1 0 2 (by decide) (by intro j hj; exact absurd hj (Nat.not_lt_zero _)) (Or.inr (Or.inl (Nat.le_refl 1)))
 
 /-! ## the LRU collection -/
 
